@@ -272,6 +272,42 @@ def rany_star():
 # python regex -> Rx
 # ----------------------------------------------------------------------------
 
+_CASE_CLASSES = None
+
+
+def _case_classes():
+    """code point -> its case variants (closure of the one-character lower()/upper() mappings), cased ones only"""
+    global _CASE_CLASSES
+    if _CASE_CLASSES is None:
+        parent = {}
+
+        def find(x):
+            while parent.get(x, x) != x:
+                parent[x] = parent.get(parent[x], parent[x])
+                x = parent[x]
+            return x
+        for cp in range(0x110000):
+            if 0xD800 <= cp <= 0xDFFF:
+                continue
+            c = chr(cp)
+            for d in (c.lower(), c.upper()):
+                if len(d) == 1 and d != c:
+                    a, b = find(cp), find(ord(d))
+                    if a != b:
+                        parent[a] = b
+        groups = {}
+        for cp in list(parent):
+            groups.setdefault(find(cp), set()).add(cp)
+        for r in list(groups):
+            groups[r].add(r)
+        out = {}
+        for members in groups.values():
+            for x in members:
+                out[x] = sorted(members - {x})
+        _CASE_CLASSES = out
+    return _CASE_CLASSES
+
+
 class PyRegex(object):
     """Structural model of a compiled python regex.
 
@@ -288,8 +324,7 @@ class PyRegex(object):
         self.flags = flags
         self.multiline = bool(flags & re.MULTILINE)
         self.dotall = bool(flags & re.DOTALL)
-        if flags & re.IGNORECASE:
-            raise Unsupported('IGNORECASE regex %r' % pattern)
+        self.icase = bool(flags & re.IGNORECASE)
         if flags & re.VERBOSE:
             raise Unsupported('VERBOSE regex %r' % pattern)
         self.ascii = bool(flags & re.ASCII)
@@ -299,8 +334,7 @@ class PyRegex(object):
             raise Unsupported('regex %r does not compile: %s' % (pattern, e))
         # inline flags
         st_flags = parsed.state.flags
-        if st_flags & re.IGNORECASE:
-            raise Unsupported('IGNORECASE regex %r' % pattern)
+        self.icase = bool(st_flags & re.IGNORECASE)
         self.multiline = bool(st_flags & re.MULTILINE)
         self.dotall = bool(st_flags & re.DOTALL)
         self.ascii = bool(st_flags & re.ASCII)
@@ -327,6 +361,24 @@ class PyRegex(object):
         self.body_unmarked = self._seq(items, ()) if mark_groups else self.body
 
     # -- translation -------------------------------------------------------
+    def _fold(self, ivs):
+        """under IGNORECASE a character class stands for every case variant of its members"""
+        if not self.icase:
+            return ivs
+        extra = []
+        if self.ascii:
+            for lo, hi in ivs:
+                for a, b, d in ((65, 90, 32), (97, 122, -32)):
+                    x, y = max(lo, a), min(hi, b)
+                    if x <= y:
+                        extra.append((x + d, y + d))
+        else:
+            table = _case_classes()
+            for cp, mates in table.items():
+                if iv_contains(ivs, cp):
+                    extra.extend((m_, m_) for m_ in mates)
+        return iv_union(ivs, iv_norm(extra)) if extra else ivs
+
     def _digit(self):
         return ASCII_DIGIT if self.ascii else category('digit')
 
@@ -363,6 +415,7 @@ class PyRegex(object):
                 acc = iv_union(acc, self._cat(av))
             else:
                 raise Unsupported('regex class item %s' % (op,))
+        acc = self._fold(acc)
         return iv_compl(acc) if neg else acc
 
     def _seq(self, items, marks):
@@ -370,9 +423,9 @@ class PyRegex(object):
 
     def _one(self, op, av, marks):
         if op == sre_c.LITERAL:
-            return rset(((av, av),))
+            return rset(self._fold(((av, av),)))
         if op == sre_c.NOT_LITERAL:
-            return rset(iv_compl(((av, av),)))
+            return rset(iv_compl(self._fold(((av, av),))))
         if op == sre_c.ANY:
             return rset(ANY_CP if self.dotall else iv_compl(NL))
         if op == sre_c.IN:
@@ -440,6 +493,7 @@ def ambiguous_repeats(pattern, flags=0):
     pr.multiline = bool(st_flags & re.MULTILINE)
     pr.dotall = bool(st_flags & re.DOTALL)
     pr.ascii = bool(st_flags & re.ASCII)
+    pr.icase = bool(st_flags & re.IGNORECASE)
     out = []
 
     def visit(items):
